@@ -418,6 +418,8 @@ def split_lines(text):
 
 def bad_lines(template=BAD_TEMPLATE):
     out = [("6-fields", " ".join(template[:6])), ("1-field", "5")]
+    # a '#' BEHIND non-blank content does not make a comment line (a comment line is blanks, then '#'): a complete row, a short row and a word followed by '#...'
+    out += [("row-then-hash", " ".join(template) + " # tip"), ("short-row-then-hash", " ".join(template[:4]) + " #"), ("word-then-hash", "x # y")]
     for j in range(7):
         t = list(template); t[j] = "abc"
         out.append((f"abc@{COLS[j]}", " ".join(t)))
